@@ -147,6 +147,18 @@ def countFor (o : Occurs) (fuel : Nat) : M Nat := do
   else pure (lo + (← below (hi - lo + 1)))
 
 mutual
+/-- the particle flattens to exactly one member (a repetition of it keeps the document order) -/
+def singleLeaf : Particle → Bool
+  | .elem .. => true
+  | .ref .. => true
+  | .seq _ ps => singleLeafList ps
+  | .choice _ ps => singleLeafList ps
+def singleLeafList : List Particle → Bool
+  | [p] => singleLeaf p
+  | _ => false
+end
+
+mutual
 /-- the content (attributes text, children) of an element of type `t` -/
 partial def content (ctx : Ctx) (style : Nat) (t : TypeRef) (fuel : Nat) : M (String × Out) := do
   match t with
@@ -173,7 +185,7 @@ partial def complexContent (ctx : Ctx) (style : Nat) (f : SchemaFile) (d : Compl
   let kids ← match d.content with
     | some (o, ps) =>
       -- a repeating group with several members is instantiated once (see DESIGN: interleaving)
-      let k ← if ps.length > 1 then pure (if o.min == 0 && fuel == 0 then 0 else 1) else countFor o fuel
+      let k ← if !(singleLeafList ps) then pure (if o.min == 0 && fuel == 0 then 0 else 1) else countFor o fuel
       let mut out : Out := {}
       for _ in [0:k] do
         out := out.append (← particles ctx style f ps fuel o.repeats)
@@ -215,7 +227,7 @@ partial def particle (ctx : Ctx) (style : Nat) (f : SchemaFile) (p : Particle) (
       out := out.append (← globalElement ctx style ns n (fuel - 1))
     pure out
   | .seq o ps =>
-    let k ← if ps.length > 1 then pure (if o.min == 0 && (fuel == 0 || (← chance 1 3)) then 0 else 1) else countFor o fuel
+    let k ← if !(singleLeafList ps) then pure (if o.min == 0 && (fuel == 0 || (← chance 1 3)) then 0 else 1) else countFor o fuel
     let mut out : Out := {}
     for _ in [0:k] do
       out := out.append (← particles ctx style f ps fuel (rep || o.repeats))
@@ -223,10 +235,12 @@ partial def particle (ctx : Ctx) (style : Nat) (f : SchemaFile) (p : Particle) (
   | .choice o ps =>
     if ps.isEmpty then pure {}
     else
-      let k ← if o.min == 0 && (fuel == 0 || (← chance 1 3)) then pure 0 else pure 1
+      -- one branch is chosen; it is repeated only when it has a single member (order is then kept)
+      let b ← pick ps
+      let k ← if singleLeaf b && o.repeats && fuel != 0 then countFor o fuel
+        else if o.min == 0 && (fuel == 0 || (← chance 1 3)) then pure 0 else pure 1
       let mut out : Out := {}
       for _ in [0:k] do
-        let b ← pick ps
         out := out.append (← particle ctx style f b fuel (rep || o.repeats))
       pure out
 
